@@ -34,6 +34,12 @@ def loptl(x) -> str:
     return "none" if x is None else f"(some {lints(x)})"
 
 
+def lil(a) -> str:
+    if isinstance(a, int):
+        return f"(OV.C08.IntOrList.int {li(a)})"
+    return f"(OV.C08.IntOrList.list {lints(a)})"
+
+
 def lb(b) -> str:
     return "true" if b else "false"
 
@@ -131,6 +137,22 @@ def lean_term_expr(name: str, c: dict) -> str | None:
         return f"{P}prod_dim.term {li(c['dim'])} {lb(c['keep'])}"
     if name == "cumsum":
         return f"{P}cumsum.term {r} {li(c['dim'])}"
+    if name.startswith("avg_pool"):
+        return f"{P}avg_pool.term {c['k']} {r} {lil(c['ks'])} {lil(c['st'])} {lil(c['pad'])} {lb(c['ceil'])} {lb(c['cip'])}"
+    if name.startswith("max_pool"):
+        if c.get("wi"):
+            return f"{P}max_pool.termWithIndices {c['k']} {lil(c['ks'])} {lil(c['st'])} {lil(c['pad'])} {lil(c['dil'])} {lb(c['ceil'])}"
+        return f"{P}max_pool.term {c['k']} {r} {lil(c['ks'])} {lil(c['st'])} {lil(c['pad'])} {lil(c['dil'])} {lb(c['ceil'])}"
+    if name in ("convolution", "conv2d"):
+        return (f"{P}conv.term {lshape(c['shape'])} {lshape(c['w'])} {lil(c['st'])} {lil(c['pad'])} {lil(c['dil'])} "
+                f"{lb(c['tr'])} {lints(c['op'])} {c['g']}")
+    if name == "constant_pad_nd":
+        return f'{P}pad.termConst {r} {lints(c["pad"])} "1.5:FLOAT"'
+    if name in ("pad", "reflection_pad1d", "reflection_pad2d", "replication_pad2d"):
+        mode = c["mode"]
+        if mode == "constant":
+            return f'{P}pad.termMode {r} {lints(c["pad"])} "constant"'
+        return f'{P}pad.termMode {r} {lints(c["pad"])} "{ {"reflect": "reflect", "replicate": "edge", "circular": "wrap"}[mode] }"'
     return None
 
 
@@ -155,7 +177,7 @@ def build_rows():
             expr = lean_term_expr(name, c)
             if expr is None or expr in seen:
                 continue
-            fn = getattr(core_mod, FAM[name]["fnname"])
+            fn = L.find_fn(FAM[name]["fnname"])
             args, kwargs = FAM[name]["call"](c)
             try:
                 model, feeds, outs, _ = L.trace(fn, args, kwargs)
@@ -198,7 +220,7 @@ def regenerate() -> dict:
     names = []
     for k, ch in enumerate(chunks):
         body = ["import OV.Model.C08View", "import OV.Model.C08Slice", "import OV.Model.C08Repl", "import OV.Model.C08Reduce",
-                "import OV.Model.C08IntArith", "import OV.Model.C08Creation",
+                "import OV.Model.C08IntArith", "import OV.Model.C08Creation", "import OV.Model.C08Attr",
                 "/-! GENERATED by harness/extract_torchlib.py from /repo's working tree — do not edit. -/",
                 "namespace OV.Gen.C08Trace", "",
                 f"/-- (model term, term emitted by the real torch_lib function) — chunk {k}. -/",
